@@ -365,6 +365,15 @@ def check_file_output(rep, fm):
         rep.check(ok, rule, "%s: the document is written to a freshly truncated file" % e.func.split(".")[-1], e.func, e.node,
                   "the JSON text is written into a file that is not truncated first (%s): an existing longer file keeps its old "
                   "tail and no longer parses" % why, node=e.node)
+        # whether a decoded document is written is decided by the run's options and the decode alone: a look at what the output
+        # directory already holds, at time stamps or at the clock would keep a stale file in place of the document
+        STATE = ("call:os.path.getmtime", "call:os.path.getctime", "call:os.path.getatime", "call:os.path.getsize", "call:os.stat",
+                 "call:os.lstat", "call:os.path.exists", "call:os.path.lexists", "call:glob.", "call:time.", "call:os.access",
+                 "call:filecmp.", "call:datetime.")
+        old = sorted({x.op[5:] for x in walk(e.guard) if isinstance(x, Op) and x.op.startswith(STATE)})
+        rep.check(not old, rule, "%s: whether the document is written does not depend on earlier output / time stamps" % e.func.split(".")[-1],
+                  e.func, e.node, "the JSON file is written only when a file-system / clock query allows it (%s): on a repeated run "
+                  "the file kept in place is not the document decoded from this PEL" % ", ".join(old), node=e.node)
     rep.floor("JSON file writes", n, 1)
 
 
